@@ -7,6 +7,11 @@ NOTES = ("All checks: ./check <ID> quick|thorough; exit 0 held / 1 VIOLATION / 2
          "every run. known_findings.json lists open findings and fixed: records; replays/<ID>/ holds committed regression cases.")
 NOT_APPLICABLE = {}
 CHECKS = {
+    "C17": {
+        "technique": "differential property-based testing across model kinds: one generated logical model is realised as dataclass / NamedTuple / TypedDict / attrs / pydantic / SQLAlchemy classes (documented limitations as applicability predicates); loads, dumps, error structures, name_mapping effects and inter-kind converters are compared pairwise",
+        "text": "Exploration: the same input must load to field-wise equal objects, equal objects must dump to equal data, bad input must produce the same flattened error structure (ALL mode), converters between kinds must copy every field.",
+        "note": "Trusted: the per-kind class builders and the applicability predicates transcribed from docs/reference/integrations.rst.",
+    },
     "C11": {
         "technique": "stateful (model-based) property-based testing: Hypothesis RuleBasedStateMachine generates histories of facade calls over a pool of mutually confusable hints (plus replace/extend, LRU churn, failing requests); after every step a probe battery is compared between the warm objects and a freshly constructed equal retort",
         "text": "Exploration over generated call histories (up to 40 steps): warm and fresh retorts must give the same outcomes, loaders obtained earlier must keep answering the same, replace()/extend() must not change the original.",
